@@ -723,7 +723,11 @@ def run_function_call(c, timeout, prop):
     ok, val = call_spec(c, func, args)
 
     def post(path, v):
-        return [("post.value", z3.And(ok, E.to_pv(v) == val)), ("frame", z3.BoolVal(not path.ghost.get("writes")))]
+        try:
+            inv = node_inv(c, E.to_pv(v), ["Call"])      # C10: whatever is returned is an AST node (a well-shaped Call)
+        except Unsupported:
+            inv = z3.BoolVal(False)
+        return [("post.value", z3.And(ok, E.to_pv(v) == val)), ("post.inv", inv), ("frame", z3.BoolVal(not path.ghost.get("writes")))]
 
     def raise_post(path, exc):
         if not is_lib_exc(exc):
